@@ -61,6 +61,10 @@ add("C14", "exploration",
     "Sample::serialize/parse/size compared bitwise on boundary values and 2*10^4 (quick) / 10^6 (thorough) random bit patterns per shard incl. NaN payloads for u8,u32,i32,f32,Complex. FileSink -> file -> FileSource on temp files under drip-feed schedules (lengths 0..3 capacities, 1-2 page streams) for u8,f32,Complex; SigMF recordings (-meta/-data) and tar archives with members in six orders and unrelated members for u8,f32,Complex; AuEncode -> AuDecode must equal trunc(clamp(x*32767))/32767 with exact count. Segmentation: FileSource reading a FIFO and TcpSource on a loop-back socket where the harness (single-threaded: write k bytes, then exactly one work()) chooses the size of every read() result: 1 byte, sample-1, sample+1, 1..3, 1..64, splits inside samples, dangling partial sample at the end, and one call with the output stream completely full.",
     "i32/u32 streams are exercised through Sample only (the harness's stream ports carry u8,u32,f32,Complex). Durability is page-cache level. Loop-back TCP delivers each small write as one read result.",
     "runtime monitoring: round-trip oracles with harness-controlled read segmentation", "3/C14", "formats")
+add("C16", "exploration",
+    "VectorSource, FileSource, SigMFSource (recording and archive) x data lengths 0,1,cap-1,cap,cap+1 and random up to 3 stream capacities x repeat in {0,1,2,3,infinite} x seeded drain schedules (none, 1, 1..100, all) on 1-2 page streams, so that repetitions are emitted in several pieces. Oracle: output = data repeated exactly r times; the EOF verdict is never returned before everything was emitted and comes within 2 further calls that had output space; an infinite repeat never returns EOF in 3000 calls; VectorSource marker tags (start, repeat=k, first) once per repetition on its first sample. Repeat API: random call sequences of again/done/count on finite(0..4) and infinite against a 10-line model of the documentation, no unwind.",
+    "For empty data both EOF and silence are accepted for an infinite repeat. Files hold whole samples only.",
+    "runtime monitoring: reference-model oracle over source x repeat x drain-schedule cases", "3/C16", "sources")
 add("C12", "exploration",
     "Inputs carry uniquely keyed tags (0-5 per sample, clustered at likely split points); under drip-feed schedules the multiset (key, value, absolute output index) seen at the output must equal the expected mapping: identity for one-to-one blocks (first input only for multi-input blocks), both outputs of Tee, +delay for Delay, index/decimation for FirFilter, minus skip for Skip, identity for Hilbert/FftFilter/FftFilterFloat; added tags of VectorSource, CorrelateAccessCodeTag, BurstTagger, VecToStream on exactly the specified samples.",
     "Blocks documented as dropping tags (RationalResampler, RtlSdrDecode, AU codec, ...) are not judged. Tags on samples that never reach the output (FIR history tail) are expected to be absent.",
@@ -75,6 +79,8 @@ ENGINES = [
          kind_free_text="harness plays both neighbours of one block on small streams; per-call observation through hook events"),
     dict(name="formats", path="harness/src/formats.rs", serves_properties=["C14"],
          kind_free_text="byte-format round trips through temp files, tar archives, FIFOs and loop-back sockets with controlled read sizes"),
+    dict(name="sources", path="harness/src/sources.rs", serves_properties=["C16"],
+         kind_free_text="finite sources under drain schedules; Repeat API model"),
     dict(name="hdlc", path="harness/src/hdlc.rs, hdlcprop.rs", serves_properties=["C13"],
          kind_free_text="HDLC transmitter model, reference deframer, clean and corrupted stream oracles"),
     dict(name="kernels", path="harness/src/kernels.rs", serves_properties=["C11"],
